@@ -26,7 +26,7 @@ RULE = ("one run = a generated valid document; each record checked valid, then 1
         "distinct = distinct mutated record texts with a definite verdict; NOT an exhaustive enumeration")
 PROBES = ["valid_record_accepted", "mutation_invalid", "mutation_still_valid", "mutation_unspecified",
           "doc_undefined_identifier", "doc_dollar_mismatch", "doc_ln_mismatch", "doc_path_overlap_count",
-          "doc_begin_gt_end", "doc_rgfa"]
+          "doc_begin_gt_end", "doc_rgfa", "doc_hdr_types"]
 ASSUMPTIONS = ["sim/recognise.py transcribes the GFA1/GFA2 grammars; cases where the specifications are silent are "
                "skipped (verdict 'unspec')",
                "bounded-exhaustive enumeration per datatype is NOT performed (out of the technique's family)"]
@@ -47,7 +47,7 @@ def gen(streams, tier, i):
         ln = fr.choice(cand)
         kind, new = corrupt(fr, ln)
         ops.append({"op": "mutate", "orig": ln, "line": new, "kind": kind})
-    docfault = fr.choice(["undefined", "dollar", "ln", "path_count", "begin_gt_end", "rgfa", None])
+    docfault = fr.choice(["undefined", "dollar", "ln", "path_count", "begin_gt_end", "rgfa", "hdr_types", None])
     ops.append({"op": "docfault", "kind": docfault, "pick": fr.randrange(1000)})
     return {"cfg": {"version": doc["version"]}, "lines": lines, "ops": ops}
 
@@ -65,7 +65,7 @@ def line_verdict(text, version, lvl):
         return ("custom", o)
     v2 = core.call(o.value.validate)
     if not v2.ok:
-        return ("rejected", v2) if v2.kind == "gfapy" else ("foreign", v2)
+        return ("rejected-by-validate", v2) if v2.kind == "gfapy" else ("foreign", v2)
     return ("accepted", o)
 
 
@@ -97,6 +97,15 @@ def run(scn, st):
             text = op["line"]
             st.count("fault.corrupt_" + op["kind"])
             rec = recognise(text, version)
+            # whatever the verdict on the text: a line built at level 3 (everything is validated while it is
+            # built) passes its own validate()
+            verdict3, o3 = line_verdict(text, version, 3)
+            st.count("oracle.level3_construction_consistent")
+            if verdict3 == "rejected-by-validate":
+                raise core.Violation("level3-accepted-then-refused",
+                                     "%r (%s of %r) is accepted by Line(..., vlevel=3) and then refused by its validate(): %s: %s" %
+                                     (text, op["kind"], op["orig"], o3.excname, str(o3.exc)[:160]),
+                                     rt=text.split("\t")[0][:2], exc=o3.excname)
             if rec == "unspec":
                 st.count("probe.mutation_unspecified")
                 continue
@@ -112,7 +121,7 @@ def run(scn, st):
                                          "vlevel %d: %r (%s of %r) violates the %s grammar but is accepted and validate() passes" %
                                          (lvl, text, op["kind"], op["orig"], version), rt=text.split("\t")[0][:2],
                                          field=which_field(op["orig"], text))
-                if rec == "valid" and verdict == "rejected":
+                if rec == "valid" and verdict in ("rejected", "rejected-by-validate"):
                     raise core.Violation("valid-rejected",
                                          "vlevel %d: %r (%s of %r) conforms to the %s grammar but is rejected: %s: %s" %
                                          (lvl, text, op["kind"], op["orig"], version, o.excname, str(o.exc)[:200]),
@@ -195,6 +204,32 @@ def docfault(scn, m, op, st):
         if int(f[4]) <= int(f[5]):
             return
         lines[i] = "\t".join(f)
+    elif kind == "hdr_types":
+        # one header tag defined on two H lines with two datatypes: whatever a level decides, it decides it
+        # consistently (built => the Gfa, its header and every line validate and the text can be written)
+        a, b = [("zt:i:1", "zt:Z:abc"), ("zt:Z:abc", "zt:i:1"), ("zt:J:[1]", "zt:Z:x"), ("zt:f:1.5", "zt:i:2")][pick % 4]
+        lines = ["H\t" + a] + lines + ["H\t" + b]
+        st.count("probe.doc_hdr_types")
+        for lvl in (1, 2, 3):
+            w = World(st)
+            o = w.construct("list", lines, vlevel=lvl)
+            st.count("oracle.document_rule")
+            if not o.ok:
+                continue
+            g = o.value
+            for what, fn in (("gfa.validate()", g.validate), ("gfa.header.validate()", g.header.validate),
+                             ("str(gfa)", lambda: str(g)),
+                             ("validate() of the header lines", lambda: [x.validate() for x in g.headers])):
+                r = core.call(fn)
+                if not r.ok and r.kind == "gfapy":
+                    raise core.Violation("accepted-document-fails-validation",
+                                         "vlevel %d: %r and %r are accepted, then %s raises %s" % (lvl, a, b, what, r.excname),
+                                         rule=kind)
+                if r.ok and what == "str(gfa)" and "# INVALID" in r.value:
+                    raise core.Violation("accepted-document-fails-validation",
+                                         "vlevel %d: %r and %r are accepted, the Gfa is written with an INVALID marker" %
+                                         (lvl, a, b), rule=kind)
+        return
     elif kind == "rgfa":
         if version != "gfa1":
             return
